@@ -17,7 +17,12 @@ func (r *Rng) Intn(n int) int {
 	}
 	return int(r.U64() % uint64(n))
 }
-func (r *Rng) Range(lo, hi int) int { return lo + r.Intn(hi-lo+1) } // inclusive
+func (r *Rng) Range(lo, hi int) int { // inclusive; biased towards the literals of changed functions (dict.go)
+	if v, ok := r.hotSize(lo, hi); ok {
+		return v
+	}
+	return lo + r.Intn(hi-lo+1)
+}
 func (r *Rng) Bool() bool         { return r.U64()&1 == 1 }
 func (r *Rng) Chance(num, den int) bool { return r.Intn(den) < num }
 func (r *Rng) Bytes(n int) []byte {
